@@ -862,6 +862,14 @@ func (tr *Tr) appendOp(fr *frame, args []Val, rt types.Type, pos token.Pos) Val 
 				tr.assume(fr.curReach, fmt.Sprintf("(forall ((%s %s)) (! (=> (and (bvsle %s %s) (bvslt %s %s)) (= (select %s %s) (select %s (bvadd %s (bvsub %s %s))))) :pattern ((select %s %s))))",
 					q, bv64, base, q, q, app("bvadd", base, n), na, q, tArr, app("s.off", t.T), q, base, na, q))
 			}
+			if !tIsString {
+				// engine lemma bvshift (a theorem of 64-bit arithmetic, /verif/lemmas/bvshift.smt2, proved by
+				// the solvers in the thorough tier): the source index of an appended element lies in the source
+				tr.assume(fr.curReach, bvShiftLemma(C, q, app("s.off", s.T), app("s.len", s.T), n, app("s.off", t.T), fmt.Sprintf("(select %s %s)", na, q)))
+			}
+			// an append in place leaves the elements behind the new length alone
+			tr.assume(fr.curReach, fmt.Sprintf("(=> %s (forall ((%s %s)) (! (=> (bvsge %s %s) (= (select %s %s) (select %s %s))) :pattern ((select %s %s)))))",
+				inPlace, q, bv64, q, app("bvadd", base, n), na, q, oldArr, q, na, q))
 			tr.vc.Abstract["append-bulk-copy(quantified)"]++
 		} else {
 			tr.vc.Abstract["append-bulk-copy(contents havoc)"]++
@@ -871,9 +879,31 @@ func (tr *Tr) appendOp(fr *frame, args []Val, rt types.Type, pos token.Pos) Val 
 	newArrN := tr.define("(Array "+bv64+" "+es+")", newArr, "app_contents")
 	// appending nothing in place writes nothing (in particular append(nil, empty...) touches no array)
 	noWrite := and(inPlace, eq(n, bvI(0, 64)))
-	fr.heap.m[ek] = tr.define(C.heapSort[ek], ite(noWrite, E, sto(E, ite(inPlace, app("s.arr", s.T), fresh), newArrN)), ek)
+	if tr.vc.Contract != nil && tr.vc.Contract.Bytes {
+		// a declared name (not a macro): quantifier patterns over the new heap must not contain `ite`
+		hn := tr.declareConst(C.heapSort[ek], ek)
+		tr.raw("(assert (= " + hn + " " + ite(noWrite, E, sto(E, ite(inPlace, app("s.arr", s.T), fresh), newArrN)) + "))")
+		fr.heap.m[ek] = hn
+	} else {
+		fr.heap.m[ek] = tr.define(C.heapSort[ek], ite(noWrite, E, sto(E, ite(inPlace, app("s.arr", s.T), fresh), newArrN)), ek)
+	}
 	C.assumpt["append: the spare capacity of a reallocated result is modelled with unspecified (not zeroed) contents"] = true
 	return Val{T: resN, Ty: rt}
+}
+
+// bvShiftLemma: for 0 <= a, b, n, o < 2^48 and a+b <= k < a+b+n: o <= o + (k - (a+b)) < o + n.
+// A valid formula of 64-bit two's complement arithmetic (its hypotheses are part of the formula, so
+// assuming an instance adds nothing); the solvers need minutes to find it inside a larger goal, so it is
+// stated where a bulk copy shifts indices. Proof: /verif/lemmas/bvshift.smt2 (thorough tier).
+func bvShiftLemma(C *Ctx, q, a, b, n, o, pat string) string {
+	C.assumpt["engine lemma bvshift (index shift of a bulk copy stays inside the source; a theorem of 64-bit arithmetic, /verif/lemmas/bvshift.smt2, re-proved in the thorough tier)"] = true
+	small := func(x string) string {
+		return and(app("bvsle", bvI(0, 64), x), app("bvslt", x, bvI(1<<48, 64)))
+	}
+	base := app("bvadd", a, b)
+	j := app("bvadd", o, app("bvsub", q, base))
+	return fmt.Sprintf("(forall ((%s %s)) (! (=> (and %s %s %s %s (bvsle %s %s) (bvslt %s (bvadd %s %s))) (and (bvsle %s %s) (bvslt %s (bvadd %s %s)))) :pattern (%s)))",
+		q, bv64, small(a), small(b), small(n), small(o), base, q, q, base, n, o, j, j, o, n, pat)
 }
 
 // constLen: the length of slice value t when it is syntactically a constant (slice of a fixed-size array).
@@ -909,6 +939,7 @@ func (tr *Tr) copyOp(fr *frame, args []Val, pos token.Pos) Val {
 			sArr := sel(E, app("s.arr", s.T))
 			tr.assume(fr.curReach, fmt.Sprintf("(forall ((%s %s)) (! (=> (and (bvsle %s %s) (bvslt %s %s)) (= (select %s %s) (select %s (bvadd %s (bvsub %s %s))))) :pattern ((select %s %s))))",
 				q, bv64, lo, q, q, hi, na, q, sArr, app("s.off", s.T), q, lo, na, q))
+			tr.assume(fr.curReach, bvShiftLemma(C, q, lo, bvI(0, 64), n, app("s.off", s.T), fmt.Sprintf("(select %s %s)", na, q)))
 		}
 		tr.vc.Abstract["copy(quantified)"]++
 	} else {
